@@ -97,7 +97,7 @@ PROPS["C17"] = dict(
                 "module dict, at most one glue function is called per module and it is the module's when it has one, every Exception of a "
                 "glue function becomes exactly one warning and the loop continues, the scan runs under glue_lock, and the length cache keeps "
                 "its entry value throughout the scan and is set to the length of the SCANNED snapshot only after the loop (glue functions "
-                "may change sys.modules arbitrarily); builtin_glue.decorate runs now XOR registers. Exactly-once is linearity: a function is "
+                "may change sys.modules arbitrarily); builtin_glue.decorate runs now XOR registers; syntactic obligations: extract_iter calls add_glue_as_needed() before its first other call, outside any branch, and every extraction entry point drives extract_iter (in time). Exactly-once is linearity: a function is "
                 "called only right after being removed from the single place that holds it. The fast-path obligation 'equal length implies "
                 "every module scanned' is REFUTED (known finding F4). Histories: bounded leg enumerates all op sequences of length <= 4 over "
                 "three fake modules with every glue kind, a raising glue, and one two-thread schedule. Schedules are not explored: the "
@@ -115,11 +115,16 @@ PROPS["C04"] = dict(
                 "statement pattern) is proved, with exact PySlice_AdjustIndices semantics for the [to:from:-1] slice and list.index, to "
                 "yield exactly the contiguous run L[idx(outer)..idx(inner)] for ALL lists of distinct frames and all anchor choices (incl. "
                 "the from_idx=None special case); the limit block keeps the frames nearest the anchor (outer only if only outer is given); "
-                "extract_since maps onto StackSlice(outer=...). Not proved: the two nested loops that BUILD the greenlet-stitched list and "
-                "get_true_caller's frame filter — these are decided by the bounded leg only: the full (outer, inner, limit) cross product at "
-                "depth 5, in three nested greenlets, from plain functions, running generators and running coroutines (1 972 cases).",
-    claim="Slicing arithmetic, f_back walk and limit trimming proved for all inputs; greenlet stitching and caller detection checked on an "
-          "exhaustive bounded cross product.",
+                "extract_since maps onto StackSlice(outer=...); get_true_caller walks past exactly the frames of the package (outside its "
+                "tests) and singledispatch's wrapper and returns the first other frame; the two nested loops that build the "
+                "greenlet-stitched list (extracted by statement pattern) visit every greenlet parent up to the one without a parent, walk "
+                "each parent's f_back chain from its gr_frame to the end, and every collected frame is the k-th f_back ancestor of its "
+                "greenlet's start frame (ghost owner / offset functions). Not proved: that these pieces compose into the property's "
+                "sentence end to end, and the other-thread search - decided by the bounded leg: the full (outer, inner, limit) cross "
+                "product at depth 5, in three nested greenlets, in parent chains with a dead immediate parent / dead middle ancestor / "
+                "never-started middle ancestor, from plain functions, running generators and running coroutines.",
+    claim="Slicing arithmetic, f_back walk, limit trimming, caller detection and the greenlet stitching loops proved for all inputs; their "
+          "composition checked on an exhaustive bounded cross product.",
     note="frames of one stack are pairwise distinct; list.index on frames is identity; f_back of a frame is None or a frame; the "
          "other-thread search loop (sys._current_frames) is not under contract")
 PY310 = "/root/.pyenv/versions/3.10.13/bin/python"
@@ -153,6 +158,7 @@ PROPS["C01"] = dict(
           g1("suspended", PY39, "py39", thorough_only=True, vendor=True), g1("suspended", PY312, "py312", 3, True, stride=40)],
     technique=BOUNDED_TECH + "; sub-lemmas (varint / exception-table decoding, handler-chain walk, the join of block stack and "
               "with-statement table in _contexts_active_by_trickery) discharged deductively",
+    explanation="Deductive sub-lemmas reported alongside the bounded stand-in (they do not make the property proved): _parse_varint and _parse_exception_table decode exactly the spec function of the 3.11+ table format for all byte strings; inspect_frame's handler-chain walk returns the outside-in chain of handlers covering f_lasti (relative to sorted, disjoint table entries); analyze_with_blocks returns a FRESH dict of FRESH Context templates that are obj-less and not exiting (3.12 and 3.10 configurations of the source); _contexts_active_by_trickery joins them correctly: entry j of the result is the j-th block of the block stack whose handler is a key of the table, no such block is dropped or reordered, its obj is the __self__ of the stack slot just below the block's level, is_async / start_line are the table's, and the entry for a context whose exit is in progress is appended last with is_exiting. NOT decided deductively: which with statement a handler offset belongs to and where an exit call sits in the bytecode (analyze_with_blocks' layout knowledge, currently_exiting_context): the CPython compiler is not formalised; the G1 legs decide it.",
     claim="Bounded stand-in: at every suspension point of every program of the family, Frame.contexts equals the shadow log (identity of obj, "
           "is_async, is_exiting on exactly the exiting one) with no InspectionWarning; plus every exit site of the running interpreter's "
           "standard library resolves to the with block on its own source line. Sub-lemmas proved deductively are reported alongside and do "
@@ -164,6 +170,7 @@ PROPS["C02"] = dict(
                                              g1("running", PY39, "py39", thorough_only=True, vendor=True),
                                              g1("running", PY312, "py312", 3, True, stride=40)],
     technique=BOUNDED_TECH,
+    explanation='Deductive sub-lemma: inside inspect_frame (3.11+), a frame that is executing (stacktop == -1) has its value stack cut to the depth of the FIRST exception-table entry covering f_lasti, computed in the same validated attempt, 0 if none covers it (C02.trim, C02.first_covering_entry_scan); everything else is the bounded stand-in.',
     claim="Bounded stand-in: the same family probed from inside every __enter__/__exit__/__aenter__/__aexit__ invocation and every body call "
           "of running coroutines, generators and async generators (extract_since on the running frame): a manager being entered is not yet "
           "listed, one being exited is listed last with is_exiting and obj set, for every way of leaving the block.",
@@ -178,6 +185,7 @@ PROPS["C08"] = dict(
                                              corpus("meta", PY311, "py311", True), g1("meta", PY310, "py310", vendor=True),
                                              g1("meta", PY39, "py39", thorough_only=True, vendor=True)],
     technique=BOUNDED_TECH + "; the varname rule of the join (static `as` name, else a local whose value IS the manager) discharged deductively",
+    explanation="Deductive sub-lemma (the varname rule of _contexts_active_by_trickery): an entry's varname is the static `as` name of its with statement when the table has one; otherwise it is None or the name of a local whose value IS the manager (ids compared, id injective on live objects), never a name for the obj-less placeholder of an exiting context; the locals scan and the fill loop are cut by invariants. start_line and the text of complex targets are the bounded stand-in's.",
     claim="Bounded stand-in: start_line equals the line of the with keyword and varname equals the `as` target (None without one) for every "
           "context of the family; for every with statement of the standard library start_line is a with line and varname is None or parses "
           "to the item's target, supported targets not dropped.",
@@ -187,15 +195,18 @@ PROPS["C20"] = dict(
     legs=[g1("referents", PY312, "py312"), g1("referents", PY311, "py311"), g1("referents", PY310, "py310", vendor=True),
           g1("referents", PY39, "py39", thorough_only=True, vendor=True)],
     technique=BOUNDED_TECH + "; containment and mode-switch obligations discharged deductively",
+    explanation="Deductive part: contexts_active_in_frame contains every Exception of the trickery analysis (one InspectionWarning, then the referents fallback on the same frame / origin) and never calls the analysis when it is disabled; _contexts_active_by_referents (3.12 and 3.10 configurations) scans the referents of the generator object (3.11+) or the frame, emits exactly one Context per bound method named __exit__/__aexit__ in referent order with obj = its __self__ and is_async from the name, and appends the is_exiting placeholder last iff an exit call is in progress; set_trickery_enabled stores the setting under _trickery_lock; _check_trickery_available stores its verdict only under that lock and only over a cell it saw unset under the same acquisition (the global is read as volatile whenever the lock is not held), so a concurrent set_trickery_enabled is never overwritten. That the referents of a frame are what the property needs (interpreter behaviour) is the bounded stand-in's.",
     claim="Bounded stand-in for the over-approximation clause (fallback mode: every truly active manager present in order with right obj / "
           "is_async, an is_exiting entry iff an exit is in progress, extras only the manager being entered or exited); containment of "
           "trickery failures and the set_trickery_enabled mode switch are proved deductively.",
     note=BOUNDED_NOTE + "; what gc.get_referents reports is interpreter behaviour")
 PROPS["C06"] = dict(
-    level="exploration", contracts=["contracts.inspect311"], static=["contracts.c06_effects"],
+    level="exploration", contracts=["contracts.inspect311", "contracts.lowlevel"], static=["contracts.c06_effects"],
+    unit_filter=lambda u: u.name in ("C07.inspect_frame_311", "C01.analyze_with_blocks"),
     legs=[g1("twin", PY312, "py312"), g1("twin", PY311, "py311", thorough_only=True),
           dict(name="c07_preempt", cmd="PYTHONPATH={repo} " + PY312 + " legs/c07_preempt.py")],
     technique=BOUNDED_TECH + " (twin runs)",
+    explanation='Deductive / syntactic part: five effect and retention obligations over the package ASTs (no resuming call on a target, no memoising decorator, no clock / RNG, module-level mutable state only in the listed places, ...); inspect_frame reads only value-stack slots below the validated depth and brackets every slot read by an f_lasti check; analyze_with_blocks hands out a fresh table of fresh templates (nothing shared between calls, so filling in obj cannot leak a manager into module state). Reference counts of the ctypes reads and crash-freedom are assumptions.',
     claim="Bounded stand-in: every program of the family run twice, un-observed and with two extractions at every suspension point: identical "
           "traces, the two extractions compare equal, managers are collectable once results are dropped. Reference-count balance of the "
           "ctypes reads and crash-freedom are NOT decided (sampled only).",
@@ -206,6 +217,7 @@ PROPS["C18"] = dict(
           dict(name="trees_C18_py311", cmd="PYTHONPATH={repo} " + PY311 + " legs/trees.py C18", thorough_only=True)],
     technique="bounded contract check: decoder (parse) applied to format() of generated Stack trees must return the tree's shape; "
               "string obligations of the line grammar are not discharged deductively (see DESIGN.md: fallback B taken)",
+    explanation="Deductive sub-lemmas: Formattable.format passes each public flag in its own field of one FormatOptions object and returns _format's lines unchanged; __str__ is ''.join(self.format()) with default options; Stack._format (string obligations, z3 sequences): the result is the header, then for every frame that is not (hidden and not show_hidden_frames), in order, that frame's lines each prefixed by the start-of-frame marker (first line) or the continuation marker (others) selected by ascii_only, then the leaf line (marker + repr + newline) iff there is a leaf, then the error lines iff there is an error; nothing else, no frame line dropped or reordered (ghost owner / offset functions). Frame._format / Context._format and the decodability of the composed prefixes are decided by the bounded leg only (fallback B of DESIGN.md).",
     claim="Bounded stand-in: on 600 (thorough 3000) pseudo-random Stack trees of depth/width <= 3 built from real frames x 8 option sets, "
           "format() yields single newline-terminated lines, the executable decoder recovers the nesting from the box-drawing prefixes, "
           "str(x) is the concatenation, ascii_only is the image under the fixed marker map, hidden items are printed iff "
@@ -226,7 +238,8 @@ PROPS["C19"] = dict(
                 "hidden, else one entry (parent's filename, start_line or parent.lineno, locals iff capture_locals), then the inner stack "
                 "summarised WITH contexts and the same flags, then each child Context's summaries with the same parent and flags (child "
                 "stacks skipped); Frame.as_stdlib_summary carries filename / lineno / funcname and locals iff capture_locals; every "
-                "FrameSummary argument is sort-checked to hold no frame. Not under contract: Stack.as_stdlib_summary's from_list call, "
+                "FrameSummary argument is sort-checked to hold no frame; Stack.as_stdlib_summary is StackSummary.from_list of its own entries with "
+                "the three flags in their own positions. Not under contract: "
                 "format_flat, the text of names/override lines, pickling - decided by the bounded leg (random trees x 8 flag sets, pickle "
                 "round trip, format_flat identity incl. recursion collapsing).",
     claim="Summary generators proved to be the structural projection; format_flat, pickling and the traceback module's rendering checked on "
